@@ -365,3 +365,90 @@ def targets():      # noqa: F811
     from . import lineparsers, c05
     # ... and every data set `_split_sweeps` builds goes through the constructor (ascending files are reversed, pairs kept together)
     return _targets_without_line_parsers() + lineparsers.targets() + [c05.target_to_dataframe()] + [t for t in c05.targets() if "DataSet.__init__" in t[0]]
+
+
+
+def target_parse_data_dispatch():
+    """data/__init__.py parse_data: which reader a file goes to.  For every extension of the documented table (get_parsers, read
+    from the working tree) x upper / lower case x an explicit file_format (with / without the dot, any case) that names ANOTHER
+    format x a reader that returns one data set or a list: exactly the named reader is called, once, with the path and the
+    keyword arguments as given, and what it returns is what comes back (a single data set wrapped in a list); an explicit format
+    wins over the extension; the spreadsheet formats go to the spreadsheet reader; an unknown format is refused with
+    UnsupportedFileFormat.  Real function on recording readers -- the domain (the table) is finite, so this is exhaustive."""
+    import os.path as _osp
+    from pyvc import overload as O
+    DM = "data/__init__"
+
+    def run(sess: Session):
+        names = ["parse_csv", "parse_dfr", "parse_dta", "parse_i2b", "parse_ids", "parse_mpt", "parse_p00", "parse_spreadsheet", "parse_z", "parse_pssession"]
+        calls = []
+
+        class DS:
+            def __init__(self, tag):
+                self.tag = tag
+
+            def get_label(self):
+                return "label"
+        mode = {"kind": "list", "raise_first": False}
+
+        def reader(nm):
+            def f(path, **kw):
+                calls.append((nm, path, dict(kw)))
+                out = [DS(nm), DS(nm)] if mode["kind"] == "list" else DS(nm)
+                return out
+            f.__name__ = nm
+            return f
+
+        class UFF(Exception):
+            pass
+        ns = {n: reader(n) for n in names}
+        ns.update({"_validate_path": lambda p_: None, "splitext": _osp.splitext, "basename": _osp.basename, "DataSet": DS, "UnsupportedFileFormat": UFF,
+                   "isinstance": isinstance, "type": type, "list": list, "all": all, "map": map, "len": len, "set": set})
+        O.load(DM, ["get_parsers", "_is_spreadsheet", "_brute_force", "parse_data"], ns)
+        table = ns["get_parsers"]()
+        sess.check("post", [], z3.BoolVal(isinstance(table, dict) and len(table) >= 10 and all(callable(v) and k.startswith(".") for k, v in table.items())), 0, label="get_parsers maps extensions (with the dot) to readers")
+        by_ext = {k: v.__name__ for k, v in table.items()}
+        # the documented formats (README / docs "Supported file formats"): each extension goes to the reader of its own format
+        spec = {".P00": "parse_p00", ".dfr": "parse_dfr", ".dta": "parse_dta", ".i2b": "parse_i2b", ".idf": "parse_ids", ".ids": "parse_ids", ".mpt": "parse_mpt",
+                ".z": "parse_z", ".pssession": "parse_pssession", ".ods": "parse_spreadsheet", ".xlsx": "parse_spreadsheet", ".txt": "parse_csv", ".csv": "parse_csv"}
+        for ext_, rd in spec.items():
+            sess.check("post", [], z3.BoolVal(by_ext.get(ext_) == rd), 0, label=f"get_parsers()[{ext_!r}] is {rd}")
+        n_cases = 0
+        for ext, want in sorted(by_ext.items()):
+            for spelled in {ext, ext.lower(), ext.upper()}:
+                for kind in ("list", "single"):
+                    if kind == "single" and want == "parse_spreadsheet":
+                        continue        # (the spreadsheet reader returns a list by its signature: one data set per sheet)
+                    mode["kind"] = kind
+                    calls.clear()
+                    path = f"/some/dir/spectrum{spelled}"
+                    out = ns["parse_data"](path, sheet="S")
+                    n_cases += 1
+                    ok = calls == [(want, path, {"sheet": "S"})] and isinstance(out, list) and all(isinstance(d, DS) and d.tag == want for d in out) and len(out) == (2 if kind == "list" else 1)
+                    sess.check("post", [], z3.BoolVal(ok), 0, label=f"[file *{spelled}, reader returns a {kind}]read by {want}(path, **kwargs), once; its data sets are returned")
+            # an explicit format that names another reader wins over the extension
+            other_ext, other = next((e, w) for e, w in sorted(by_ext.items()) if w != want)
+            for ff in (other_ext, other_ext[1:], other_ext.upper(), other_ext[1:].upper()):
+                mode["kind"] = "list"
+                calls.clear()
+                path = f"/some/dir/spectrum{ext}"
+                out = ns["parse_data"](path, file_format=ff)
+                n_cases += 1
+                sess.check("post", [], z3.BoolVal(calls == [(other, path, {})] and all(d.tag == other for d in out)), 0, label=f"[file *{ext}, file_format={ff!r}]the explicit format decides: read by {other}")
+        for bad in (".xyz", "xyz"):
+            calls.clear()
+            try:
+                ns["parse_data"]("/some/dir/spectrum.csv", file_format=bad)
+                res = "returned"
+            except UFF:
+                res = "refused"
+            sess.check("post", [], z3.BoolVal(res == "refused" and not calls), 0, label=f"[file_format={bad!r}]an unknown format is refused with UnsupportedFileFormat, nothing is read")
+        sess.check("cover", [], z3.BoolVal(n_cases >= 60), 0, label=f"dispatch cases: {n_cases}")
+    return (f"{DM}:parse_data", DM, "parse_data", run)
+
+
+_targets_before_dispatch = targets
+
+
+def targets():      # noqa: F811
+    return _targets_before_dispatch() + [target_parse_data_dispatch()]
